@@ -29,7 +29,7 @@ ASSUMPTIONS = [
     'smoothing window is a percentage of the layer count (0-100)',
     'for Guillot parameters outside the documented bounds but not in a listed rejected class nothing beyond agreement with the closed form is asserted',
 ]
-REQUIRED = {'negative-node': 0.006, 'kind:npoint': 0.08, 'kind:guillot': 0.06, 'kind:array': 0.04, 'kind:file': 0.03, 'kind:rodgers': 0.04,
+REQUIRED = {'guillot-fault-set-after-first-use': 0.02, 'negative-node': 0.006, 'kind:npoint': 0.08, 'kind:guillot': 0.06, 'kind:array': 0.04, 'kind:file': 0.03, 'kind:rodgers': 0.04,
             'kind:isothermal': 0.02, 'rejected-class': 0.04}
 # coverage-guided extra (thorough tier): pure-Python taurex modules on this property's path, instrumented by atheris
 FUZZ = {'include': ['taurex.data.profiles.temperature'], 'runs': 40000, 'workers': 4}
@@ -95,6 +95,7 @@ def _case(draw):
         c['mass'] = draw(st.floats(0.05, 10.0))
         c['radius'] = draw(st.floats(0.3, 2.5))
         c['fault'] = draw(st.sampled_from([None, None, None, 'kappa_ir=0', 'kappa_v1=0', 'kappa_v2=0', 'T_irr<0', 'T_int<0']))
+        c['late_fault'] = draw(st.booleans())         # the unphysical value arrives through the fitting parameter after a first valid use
     return c
 
 
@@ -269,8 +270,10 @@ def check(case):
             vals = dict(T_irr=c['T_irr'], kappa_irr=10.0 ** c['lk_ir'], kappa_v1=10.0 ** c['lk_v1'],
                         kappa_v2=10.0 ** c['lk_v2'], alpha=c['alpha'], T_int=c['T_int'])
             fault = c['fault']
+            glate = None
             if fault:
                 expect_reject = True
+                good_vals = dict(vals)
                 if fault == 'kappa_ir=0':
                     vals['kappa_irr'] = 0.0
                 elif fault == 'kappa_v1=0':
@@ -281,16 +284,27 @@ def check(case):
                     vals['T_irr'] = -vals['T_irr']
                 else:
                     vals['T_int'] = -max(vals['T_int'], 1.0)
+                if c.get('late_fault'):
+                    key = {'kappa_ir=0': 'kappa_irr', 'kappa_v1=0': 'kappa_v1', 'kappa_v2=0': 'kappa_v2', 'T_irr<0': 'T_irr'}.get(fault, 'T_int')
+                    glate = ({'T_int': 'T_int_guillot'}.get(key, key), vals[key])
+                    vals = good_vals
+                    out.cls('guillot-fault-set-after-first-use')
             try:
                 tp = cut(out, 'construct', Guillot2010, expect=(InvalidModelException,), **vals)
             except InvalidModelException:
                 out.cls('rejected-class')
                 out.applies('rejects-unphysical')
-                if not expect_reject:
+                if not expect_reject or glate is not None:
                     out.fail('rejects-unphysical@guillot,valid-rejected', 'valid parameters rejected at construction: %s' % vals)
                 out.nontrivial = True
                 return out
             nontriv = True
+            if glate is not None:
+                # a retrieval writes parameters into a profile that has already been used
+                cut(out, 'initialize_profile', tp.initialize_profile, planet, nl, P.copy())
+                with np.errstate(all='ignore'):
+                    cut(out, 'profile@guillot', lambda: np.asarray(tp.profile, dtype=float))
+                cut(out, 'fitting-parameter', tp.fitting_parameters()[glate[0]][3], glate[1])
         # ---- evaluate -------------------------------------------------------------------------
         cut(out, 'initialize_profile', tp.initialize_profile, planet, nl, P.copy())
         try:
@@ -308,7 +322,7 @@ def check(case):
         out.cls('rejected-class')
         out.applies('rejects-unphysical')
         if not rejected:
-            out.fail('rejects-unphysical@%s,%s' % (kind, c.get('fault')),
+            out.fail('rejects-unphysical@%s,%s%s' % (kind, c.get('fault'), ',late' if kind == 'guillot' and c.get('late_fault') else ''),
                      'unphysical parameters gave a profile (min %r) instead of an invalid-model error' % float(np.nanmin(T)))
         out.nontrivial = True
         return out
